@@ -796,6 +796,8 @@ func (g *c18Gen) gen(rt reflect.Type, depth int) reflect.Value {
 			}
 			v.Field(i).Set(g.gen(rt.Field(i).Type, depth-1))
 		}
+	case reflect.Interface:
+		// stays nil (only in judge-only targets outside the model)
 	default:
 		panic("c18 gen: unsupported " + rt.String())
 	}
@@ -1403,10 +1405,15 @@ func c18Depth(rt reflect.Type) (int, reflect.Type) {
 }
 
 func c18Judge(ctx *Ctx, v cty.Value, rt reflect.Type, impl string, why string) {
-	vw, tw := encVal(v), encGoTy(rt)
+	vw, tw := encVal(v), c18TyName(rt)
 	lit := fmt.Sprintf("var t %s; err := gocty.FromCtyValue(%#v, &t)", rt, v)
 	depth, base := c18Depth(rt)
 	isBig := base == c18BigIntT || base == c18BigFloatT
+	if !v.ContainsMarked() && impl != "panic" {
+		// unmarked: judged at every depth (c18_d18shape.go)
+		c18JudgeDeep(ctx, v, rt, impl)
+		return
+	}
 	if impl == "panic" && !v.ContainsMarked() {
 		sig := "FromCtyValue panics on an unmarked value"
 		if isBig && v.Type().IsTupleType() {
@@ -1588,6 +1595,7 @@ func runC18(ctx *Ctx) {
 	runC18Numbers(ctx)
 	runC18RoundTrip(ctx)
 	runC18Decode(ctx)
+	runC18NearMiss(ctx)
 	runC18Irregular(ctx)
 	ctx.res.Exhaustive = true
 	ctx.res.Scope = fmt.Sprintf("every integer width/sign (10 types) x %d boundary numbers (2^k, k in {0,7,8,15,16,31,32,63,64}, both signs, +-1, +-0.5, huge, infinite, -0, low precision); "+
